@@ -72,15 +72,20 @@ class LockstepHook:
             self.mismatch.append(("return-value-differs-from-contract", rec, bad))
             return
         # cross-invariant: the effect took place (also under noreply)
+        diff = self.state_diff(world, m)
+        if diff:
+            self.mismatch.append(("server-state-differs-from-contract", rec, {"model_vs_server": diff}))
+
+    def state_diff(self, world, m):
         mv = m.visible()
         nv = {}
         for n in world.nodes.values():
             for k, it in n.snapshot().items():
                 nv[k] = (it[0], it[1], it[2])
         if mv != nv:
-            diff = {repr(k): [repr(mv.get(k))[:80], repr(nv.get(k))[:80]]
+            return {repr(k): [repr(mv.get(k))[:80], repr(nv.get(k))[:80]]
                     for k in set(mv) | set(nv) if mv.get(k) != nv.get(k)}
-            self.mismatch.append(("server-state-differs-from-contract", rec, {"model_vs_server": diff}))
+        return None
 
 
 class C05(Prop):
